@@ -10,6 +10,7 @@ import (
 	"fmt"
 	"math/rand"
 	"os"
+	"sort"
 	"runtime/debug"
 	"strconv"
 	"strings"
@@ -144,9 +145,38 @@ func runKeyOp(op string, k *kcodec, a []string) string {
 		case "err":
 			s, e := k.c.EncodeRegionRange(unhx(a[0]), unhx(a[1]))
 			return hx(s) + " " + hx(e)
+		case "dbk":
+			var in [][]byte
+			if a[0] != "" {
+				for _, h := range strings.Split(a[0], ",") {
+					in = append(in, cp(unhx(h)))
+				}
+			}
+			r, err := k.c.DecodeBucketKeys(in)
+			if err != nil {
+				if apicodec.IsDecodeError(err) {
+					return "decerr"
+				}
+				return "err"
+			}
+			return "ok " + hxList(r)
+		case "pki":
+			id, err := apicodec.ParseKeyspaceID(cp(unhx(a[0])))
+			if err != nil {
+				return "err"
+			}
+			return fmt.Sprintf("ok %x", uint32(id))
 		}
 		return "unknown-op"
 	})
+}
+
+func hxList(l [][]byte) string {
+	var p []string
+	for _, b := range l {
+		p = append(p, hx(b))
+	}
+	return strings.Join(p, ",")
 }
 
 func emit(op string, k *kcodec, a ...string) string {
@@ -386,6 +416,77 @@ func genKeys(seed int64, tier string) {
 				got2 := emit("drr", k, hx(memEnc(s)), hx(memEnc(e)))
 				want := clipSpec(k, s, e)
 				prop("region_clip", got == want && got2 == want, clipClass(k, s), k.mode, fmt.Sprintf("%x", k.id), hx(s), hx(e), "got="+got, "want="+want)
+			}
+		}
+		// ParseKeyspaceID: every image parses to the id; arbitrary strings parse iff >= 4 bytes starting with r / x
+		for i := 0; i < 8; i++ {
+			key := lk[rng.Intn(len(lk))]
+			emit("pki", k, hx(k.c.EncodeKey(key)))
+			id, err := apicodec.ParseKeyspaceID(k.c.EncodeKey(key))
+			prop("parse_id", err == nil && uint32(id) == k.id, "-", k.mode, fmt.Sprintf("%x", k.id), hx(key))
+		}
+		for _, p := range phys {
+			emit("pki", k, hx(p))
+			_, err := apicodec.ParseKeyspaceID(cp(p))
+			prop("parse_exact", (err == nil) == (len(p) >= 4 && (p[0] == 'r' || p[0] == 'x')), "-", k.mode, fmt.Sprintf("%x", k.id), hx(p))
+		}
+		// bucket keys: sorted sub-lists of the boundary strings, as memcomparable keys (first / last may be empty)
+		nb := 40
+		if tier == "thorough" {
+			nb = 300
+		}
+		sorted := append([][]byte{}, phys...)
+		sort.Slice(sorted, func(i, j int) bool { return bytes.Compare(sorted[i], sorted[j]) < 0 })
+		for i := 0; i < nb; i++ {
+			var bl [][]byte
+			n := 2 + rng.Intn(6)
+			start := rng.Intn(len(sorted))
+			for j := start; j < len(sorted) && len(bl) < n; j += 1 + rng.Intn(4) {
+				if len(sorted[j]) == 0 && len(bl) > 0 {
+					continue
+				}
+				bl = append(bl, sorted[j])
+			}
+			if len(bl) < 2 {
+				continue
+			}
+			if rng.Intn(4) == 0 {
+				bl[len(bl)-1] = nil // unbounded region end
+			}
+			var enc []string
+			var encb [][]byte
+			for _, b := range bl {
+				enc = append(enc, hx(memEnc(b)))
+				encb = append(encb, memEnc(b))
+			}
+			emit("dbk", k, strings.Join(enc, ","))
+			out, err := k.c.DecodeBucketKeys(encb)
+			k0, kn := bl[0], bl[len(bl)-1]
+			want := clipSpec(k, k0, kn)
+			if err != nil || want == "oob" {
+				continue // the region itself is refused by DecodeRegionRange before buckets are looked at
+			}
+			// members: the non-empty results are exactly the stripped boundaries carrying the prefix
+			var wantMid []string
+			for _, b := range bl {
+				if bytes.HasPrefix(b, k.pfx) && len(b) > 4 {
+					wantMid = append(wantMid, hx(b[4:]))
+				}
+			}
+			var gotMid []string
+			for _, o := range out {
+				if len(o) > 0 {
+					gotMid = append(gotMid, hx(o))
+				}
+			}
+			prop("bucket_members", strings.Join(gotMid, ",") == strings.Join(wantMid, ","), "-", k.mode, fmt.Sprintf("%x", k.id), strings.Join(enc, ","))
+			// ends: first = decoded region start, last = decoded region end. The class where the region end is a short
+			// string between the last key of the keyspace and endKey is modelled as the code is (C15_bucket_last_refuted)
+			// and only compared differentially.
+			shortEnd := len(kn) > 0 && !bytes.HasPrefix(kn, k.pfx) && bytes.Compare(kn, k.pfx) > 0 && bytes.Compare(kn, k.end) < 0
+			if !shortEnd && len(out) > 0 {
+				ends := "ok " + hx(out[0]) + " " + hx(out[len(out)-1])
+				prop("bucket_ends", ends == want, "-", k.mode, fmt.Sprintf("%x", k.id), strings.Join(enc, ","), "got="+ends, "want="+want)
 			}
 		}
 		// isolation against the other codecs: foreign keys are rejected and lie in no range of k
